@@ -92,6 +92,7 @@ func vpRank(b []byte) uint64
 func vpJoin()
 func vpYield()
 func vpSettle()
+func vpEager()
 func vpSameBacking(a, b []byte) bool
 `
 
